@@ -421,6 +421,15 @@ def _render_separate_edges(
                 )
                 if actual_source is None:
                     continue
+                actual_attrs = flat_graph.nodes.get(actual_source, {})
+                if actual_attrs.get("node_type") == "GRAPH" and expansion_state.get(actual_source, False):
+                    # the producer is hidden inside this expanded container, which has
+                    # no DATA nodes of its own: draw from the container itself
+                    edge_key = (_sanitize_id(actual_source), _sanitize_id(target), value_name)
+                    if edge_key not in seen_edges:
+                        seen_edges.add(edge_key)
+                        lines.append(_format_edge(actual_source, target, value_name))
+                    continue
                 data_id = f"data_{actual_source}_{value_name}"
                 edge_key = (_sanitize_id(data_id), _sanitize_id(target))
                 if edge_key not in seen_edges:
